@@ -382,7 +382,10 @@ def coverage(records: list[dict], extras: list[dict], options: dict) -> dict:
         "reach_probes": {k: v for k, v in sorted(probes.items()) if not k.startswith("hit:")},
         "cache_hits_by_expression": {k[4:]: v for k, v in sorted(probes.items()) if k.startswith("hit:")},
         "call_outcomes": statuses,
-        "phases_per_hash_config": cfgs,
+        "phases_per_hash_config_kind": {"PYTHONHASHSEED=0": cfgs.get("H0", 0),
+                               "other fixed seed": sum(n for c, n in cfgs.items() if c.startswith("H") and not c.startswith("HU") and c != "H0"),
+                               "unset (emulated)": sum(n for c, n in cfgs.items() if c.startswith("HU"))},
+        "distinct_hash_seed_configurations": len(cfgs),
         "runs_with_legacy_writer": sum(1 for r in records if r["stats"]["legacy"]),
         "runs_fault_free_configuration": sum(1 for r in records if not r["stats"]["fault_mode"]),
         "runs_with_real_process_actors": sum(1 for r in records if r["stats"].get("mode") == "proc"),
